@@ -33,6 +33,7 @@ const (
 	KIter         // P = iterator
 	KOpaque       // P = host object (reflect shim etc.)
 	KDeferStack   // P = **deferred
+	KSymElem      // P = *symElem: address of a slice element at a symbolic index (load only)
 )
 
 // V is a run-time value of the interpreted program.
